@@ -40,12 +40,18 @@ IdOK(ev)      == ev.decSsid = ev.ssid /\ ev.decT = ev.t
 IdOrderOK(ev) == ev.later => ev.cmp < 0          \* created later for the same channel sorts before
 IdUniqueOK(ev) == ev.distinct = ev.n
 CodecOK(ev)   == ~ev.err /\ ev.equal
+(* a transport that refuses a unicast (mesh returns an error when the peer is unreachable for a moment): every message
+   handed to the peer is still passed to the transport once, in the order it was handed over - the refused chunk's
+   messages included (they were passed; what the transport does with them is not the peer queue's business), and a
+   message handed over while the flush is running goes out after those already queued
+   {"e":"forward","n":messages handed to the peer (numbered in hand-over order),"passed":[numbers in the order the transport saw them]} *)
+ForwardOK(ev) == ev.passed = [i \in 1..ev.n |-> i]
 
 VARIABLE l
 Ev == Log[l]
 Check(e, ok) == l <= Len(Log) /\ Log[l].e = e /\ ok /\ l' = l + 1
 TraceInit == l = 1 /\ MarkInit
 TraceNext == \/ Check("split", SplitOK(Ev)) \/ Check("drain", DrainOK(Ev)) \/ Check("id", IdOK(Ev))
-             \/ Check("idorder", IdOrderOK(Ev)) \/ Check("idunique", IdUniqueOK(Ev)) \/ Check("codec", CodecOK(Ev))
+             \/ Check("idorder", IdOrderOK(Ev)) \/ Check("idunique", IdUniqueOK(Ev)) \/ Check("codec", CodecOK(Ev)) \/ Check("forward", ForwardOK(Ev))
 MarkC == Mark(l)
 =============================================================================
